@@ -35,6 +35,10 @@ JOBS = [
     # ---- MGRS (C05)
     Job('MGRS.LatitudeBand', 'MGRS::LatitudeBand', ['C05', 'C04', 'C14'], description='latitude band number'),
     Job('MGRS.CheckCoords', 'MGRS::CheckCoords', ['C05', 'C13', 'C14'], timeout=300, description='MGRS coordinate ranges and hemisphere folding'),
+    Job('MGRS.Forward', 'MGRS::Forward', ['C05', 'C13', 'C14'], select=r'real lat', unwind=14, timeout=400,
+        replace=[('MGRS::CheckCoords', dict(may_throw=True)), 'MGRS::LatitudeBand', 'MGRS::UTMRow'], const_classes=['UTMUPS'],
+        cases=[('p_m1', 'in_prec == -1'), ('p0', 'in_prec == 0')] + [('p%d' % k, 'in_prec == %d' % k) for k in range(1, 12)] + [('p_out', 'in_prec < -1 || in_prec > 11')],
+        description='MGRS encoder (latitude given)'),
     Job('MGRS.UTMRow', 'MGRS::UTMRow', ['C05', 'C14'], description='row/band compatibility (exhaustive over all 3200 argument triples)'),
 ]
 
